@@ -54,6 +54,17 @@ Theorem C28_history_invariant : forall st now r,
 Proof. exact step_hist_wf. Qed.
 Print Assumptions C28_history_invariant.
 
+(* The stored history behaves as a time-keyed map: after a call at `now` it is sorted by time, holds
+   the current tables at `now`, and otherwise exactly the previously stored entries that are not
+   older than MAX_AGE and were not stored at the same instant. *)
+Theorem C28_history_is_recent_reports : forall st now r e,
+  hist_sorted (prev st) ->
+  hist_sorted (prev (fst (step_gen false st now r))) /\
+  (In e (prev (fst (step_gen false st now r))) <->
+   e = (now, lat r) \/ (In e (prev st) /\ now - fst e <= MAX_AGE /\ fst e <> now)).
+Proof. exact step_history. Qed.
+Print Assumptions C28_history_is_recent_reports.
+
 (* best_of is the minimum of all latencies recorded for the relay in the fresh stored reports
    and the current one. *)
 Theorem C28_best_of_is_min : forall h now cur u m,
